@@ -70,7 +70,9 @@ class Path:
     def pid(self):
         return ''.join('T' if d else 'F' for d in self.decisions) or '-'
 
-    def assume(self, c):
+    def assume(self, c, heavy=False):
+        """heavy assumptions (invariants, callee postconditions: recursive functions, quantifiers) are kept out
+        of the feasibility solver, which only prunes paths (over-approximating feasibility is sound)"""
         if c is True:
             return
         if c is False:
@@ -81,7 +83,8 @@ class Path:
         if z3.is_false(c):
             raise PathEnd()
         self.pc.append(c)
-        self.solver.add(c)
+        if not heavy:
+            self.solver.add(c)
 
     def feasible(self, c):
         self.nfeas += 1
